@@ -97,6 +97,7 @@ def run(repo, run, tier):
     from .c02 import newton
     newton(repo, run, rule_id="C10.5")
     kick_mask_plumbing(repo, run)
+    kick_mask_dataflow(repo, run)
 
 
 def shear_shape(repo, run, r4, upd, stepfn, dcol, kcol):
@@ -286,6 +287,33 @@ def kick_mask_plumbing(repo, run):
                                                 "handed to the splitting integrator (the default half/half mask is used silently)" % (src(x), x.attr))
     if n_reads == 0:
         raise AnalysisError("OdeSystem: no class-level reads through self.__method found")
+    # (c) a mask stored with set_kick_vars survives a change of method made without a mask: on the path `argument is None` the helper that
+    #     chooses the mask for set_method must fall back to a stored mask (the integrator's or the system's), never hand the None back
+    import itertools
+    from ..sym import path_condition, tree_atoms, eval_bool, BoolTracker
+    gm = repo.maybe(DSF, "OdeSystem.__get_integrator_mask")
+    sm = repo.get(DSF, "OdeSystem.set_method")
+    uses = [x for x in _ast.walk(sm) if isinstance(x, _ast.Call) and dotted(x.func) == "self.__get_integrator_mask"]
+    if gm is not None and uses:
+        par = [a.arg for a in gm.args.args if a.arg != "self"][0]
+        for ret in [r for r in walk_no_nested(gm) if isinstance(r, _ast.Return)]:
+            bt = BoolTracker()
+            pc, _ = path_condition(ret, gm, tracker=bt, guards=True)
+            atoms = tree_atoms(pc)
+            nones = [a for a in atoms if a.split("@")[0] in ("%s Is None" % par, "None Is %s" % par)]
+            free = [a for a in atoms if a not in nones]
+            reach_none = False
+            for vals in itertools.product((False, True), repeat=min(len(free), 10)):
+                asg = dict(zip(free, vals))
+                asg.update({a: True for a in nones})
+                if eval_bool(pc, asg):
+                    reach_none = True
+            gives_back_none = reach_none and isinstance(ret.value, _ast.Name) and ret.value.id == par
+            run.judged(rid, "__get_integrator_mask: `%s` %s" % (src(ret), "reachable with no mask given" if reach_none else "only with a mask given"), ok=not gives_back_none)
+            if gives_back_none:
+                run.report("C10.6", DSF, ret, "set_method called without a mask (e.g. `system.method = ...`) stores what this helper returns; on the path where the current integrator "
+                                              "has no mask of its own it returns the argument, i.e. None, which overwrites the mask the user stored with set_kick_vars: the new "
+                                              "splitting integrator silently uses the default half/half mask")
     ns = backend_namespace(repo)
     run.judged(rid, "desolver.backend namespace resolved: %d names" % len(ns), ok=len(ns) >= 10)
     mod = repo.module(ITY)
@@ -304,3 +332,78 @@ def kick_mask_plumbing(repo, run):
                                         "mask other than the default can be used" % src(x))
     if n_fn == 0:
         raise AnalysisError("integrator_types: no function handles staggered_mask")
+
+
+ELEMENTWISE = ("asarray", "array", "astype", "copy", "to_type", "atleast_1d", "bool_", "clone", "to")
+
+
+def kick_mask_dataflow(repo, run):
+    """'all kick masks': a mask given by the user has the shape of the state and says, element by element, which variables are kicked; on the path where a
+    mask was given the integrator's mask must be an ELEMENTWISE conversion of it (no reduction to indices, no re-indexing of a fresh array)"""
+    import ast as _ast
+    from ..front import walk_no_nested, is_self_attr, src, dotted, fname
+    from ..sym import path_condition, tree_atoms, eval_bool, BoolTracker
+    import itertools
+    rid = run.rule("C10.7", "on the path where the user gave a kick mask, self.staggered_mask is bound once, to an elementwise conversion of that argument "
+                            "(asarray/astype/...), the argument is not rebound and nothing is stored into the mask afterwards; kick_mask is a conversion of it", floor=3)
+    ITY = extract.ITYPES
+    init = repo.get(ITY, extract.SPLIT + ".__init__")
+    run.analysed_fn(ITY, init)
+    P = "staggered_mask"
+    if P not in [a.arg for a in init.args.args]:
+        raise AnalysisError("ExplicitSymplecticIntegrator.__init__ has no staggered_mask parameter")
+
+    def on_user_path(st):
+        """can st execute when the argument is not None?"""
+        bt = BoolTracker()
+        pc, _ = path_condition(st, init, tracker=bt, guards=True)
+        atoms = tree_atoms(pc)
+        none_atoms = [a for a in atoms if a.split("@")[0] in ("%s Is None" % P, "None Is %s" % P)]
+        free = [a for a in atoms if a not in none_atoms]
+        if len(free) > 12:
+            return True
+        for vals in itertools.product((False, True), repeat=len(free)):
+            asg = dict(zip(free, vals))
+            for a in none_atoms:
+                asg[a] = False
+            if eval_bool(pc, asg):
+                return True
+        return False
+
+    def elementwise(e):
+        if isinstance(e, _ast.Name):
+            return e.id == P
+        if isinstance(e, _ast.Call):
+            f = fname(e)
+            if f in ELEMENTWISE and e.args:
+                return elementwise(e.args[0])
+            if isinstance(e.func, _ast.Attribute) and e.func.attr in ELEMENTWISE:
+                return elementwise(e.func.value)
+        return False
+    rebinds, binds, index_stores = [], [], []
+    for st in walk_no_nested(init):
+        if isinstance(st, (_ast.Assign, _ast.AugAssign)):
+            tg = st.targets if isinstance(st, _ast.Assign) else [st.target]
+            for t in tg:
+                if isinstance(t, _ast.Name) and t.id == P and on_user_path(st):
+                    rebinds.append(st)
+                if is_self_attr(t, P) and on_user_path(st):
+                    binds.append(st)
+                if isinstance(t, _ast.Subscript) and is_self_attr(t.value, P) and on_user_path(st):
+                    index_stores.append(st)
+    ok1 = len(binds) == 1 and isinstance(binds[0], _ast.Assign) and elementwise(binds[0].value)
+    run.judged(rid, "user path: self.staggered_mask bound by %s" % [src(b)[:90] for b in binds], ok=ok1)
+    if not ok1:
+        run.report("C10.7", ITY, binds[0] if binds else init, "when a kick mask is given, self.staggered_mask is not (only) an elementwise conversion of that argument: the split "
+                                                             "applied to the state is not the one the user specified", text="user-mask binding: %s" % [src(b)[:60] for b in binds])
+    ok2 = not rebinds and not index_stores
+    run.judged(rid, "user path: argument not rebound (%d), no indexed store into the mask (%d)" % (len(rebinds), len(index_stores)), ok=ok2)
+    for st in rebinds + index_stores:
+        run.report("C10.7", ITY, st, "on the path where the user gave a kick mask %s: a mask of the state's shape is reduced to indices of its leading axis (or overwritten), so "
+                                     "variables the user did not select are kicked and the step is no longer a composition of shears" % (
+                                         "the argument is rebound" if st in rebinds else "the mask is written through an index"))
+    km = [st for st in walk_no_nested(init) if isinstance(st, _ast.Assign) and any(is_self_attr(t, "kick_mask") for t in st.targets)]
+    ok3 = len(km) == 1 and isinstance(km[0].value, _ast.Call) and fname(km[0].value) in ELEMENTWISE and km[0].value.args and is_self_attr(km[0].value.args[0], P)
+    run.judged(rid, "kick_mask = conversion of self.staggered_mask: %s" % [src(k)[:80] for k in km], ok=ok3)
+    if not ok3:
+        run.report("C10.7", ITY, km[0] if km else init, "kick_mask is not an elementwise conversion of self.staggered_mask", text="kick_mask binding")
